@@ -24,6 +24,10 @@ func runC13(p *Prog, r *Report) {
 	if want("C13.2") {
 		ruleEntryGates(p, r, "C13.2")
 	}
+	if want("C13.17") {
+		// filtered lookups probe the partition the writer put the block's keys in, whatever FilterBaseLg (shared with C16.4)
+		ruleFilterPartition(p, r, "C13.17")
+	}
 	if want("C13.16") {
 		ruleBufferPoolGet(p, r, "C13.16")
 	}
